@@ -47,7 +47,10 @@ class IndependentMultitaskVariationalStrategy(_VariationalStrategy):
         return self.base_variational_strategy.variational_params_initialized
 
     def kl_divergence(self):
-        return super().kl_divergence().sum(dim=-1)
+        kl_divergence = super().kl_divergence()
+        # Sum over the task dimension (the last batch dimension if the tasks share a single GP)
+        task_dim = self.task_dim if -kl_divergence.dim() <= self.task_dim < kl_divergence.dim() else -1
+        return kl_divergence.sum(dim=task_dim)
 
     def __call__(self, x, task_indices=None, prior=False, **kwargs):
         r"""
